@@ -254,7 +254,7 @@ func Main(a int) int {
 	return f(a) + 10
 }
 `, "Main", []Arg{{T: "int", I: 1}}, "int", "i:10"},
-	{kResidue, "a panic raised in the middle of an expression (or inside a range loop / switch) and recovered leaves the operands (loop state) on the evaluation stack of the returning function",
+	{kResidue, "a panic raised in the middle of an expression (or inside a range loop / switch) and recovered leaves the operands (loop state) on the evaluation stack of the returning function; the same happens to the results already pushed by a return statement when a deferred call panics and an earlier defer recovers",
 		`package foo
 
 func Main(a int) int {
